@@ -506,6 +506,16 @@ class SSeq(SVal):
     def meth_copy(self, cx):
         return SSeq(self.elt, self.t)
 
+    def meth_pop(self, cx, *idx):
+        if idx:
+            raise Unsupported("list.pop(i)")
+        n = self.n
+        cx.decide_or_fail(n > 0, "IndexError", "pop from empty list")
+        v = self.elt.wrap(self.at_term(n - 1))
+        self.t = self.make(n - 1, self.arr)
+        cx.note_write(("seq", id(self)), self)
+        return v
+
     def meth_sort(self, cx, key=None):
         """Trusted T4: list.sort() yields an ascending PERMUTATION (witnessed by a bijection on indices) —
         provided `<` on the elements is a strict weak order (a lemma of the property that uses it)."""
